@@ -21,7 +21,7 @@ Clauses(rec) ==
       mons == {rec.mon[i][1] : i \in 1..Len(rec.mon)}
   IN
   \* C04: all or nothing, truthful
-  (IF rec.r < 0 /\ rec.left # 0 THEN {"C04:child-left-behind-after-failed-start"} ELSE {}) \cup
+  (IF rec.r < 0 /\ rec.left # 0 THEN {"C04:child-left-behind-after-failed-start", "C05:child-of-failed-start-left-unreaped"} ELSE {}) \cup
   (IF rec.r < 0 /\ (rec.dnfd # 0 \/ rec.dnalloc # 0) THEN {"C04:failed-start-left-resources", "C05:failed-start-left-resources"} ELSE {}) \cup
   (IF rec.r < 0 /\ rec.r2 # 1 THEN {"C04:handle-not-restartable-after-failed-start"} ELSE {}) \cup
   (IF rec.r < 0 /\ rec.r \notin errs THEN {"C04:error-is-not-the-injected-cause"} ELSE {}) \cup
